@@ -29,9 +29,9 @@ def loop_contract(vec, kind, target, n):
     done = "(gk_kind == %s && gk_pos < i)" % kind
     return ("__CPROVER_assigns(i, __CPROVER_object_whole(%s->data))\n"
             "__CPROVER_loop_invariant(0 <= i && i <= %s\n"
-            "    && (%s ==> BITS(%s->data[gk]) == %s)\n"
-            "    && (!%s ==> BITS(%s->data[gk]) == __CPROVER_loop_entry(BITS(%s->data[gk]))))\n"
-            "__CPROVER_decreases(%s - i)" % (vec, n, done, vec, target, done, vec, vec, n))
+            "    && (%s ==> %s)\n"
+            "    && (!%s ==> SAME(%s->data[gk], __CPROVER_loop_entry(%s->data[gk]))))\n"
+            "__CPROVER_decreases(%s - i)" % (vec, n, done, target, done, vec, vec, n))
 
 
 def build_unit(ctx):
@@ -56,11 +56,11 @@ def build_unit(ctx):
         r.sub("reference->pointer: ic.getTotalNum*()", r"\bic\.getTotalNum(Pres|Zero)%s\(\)" % X, r"getTotalNum\1%s(ic)" % X, 2)
         r.sub("container->contracted-stub: v[ic.list[i]] = pool[i]", r"\b%s\[ic\.(pres%s)\[i\]\] = %s\.%s\[i\];" % (x, X, cachevar, pool),
               r"*vec_upd(%s, idx_at(&ic->\1, i)) = vec_get(&%s->%s, i);" % (x, cachevar, pool), 1)
-        r.sub("container->contracted-stub: v[ic.list[i]] = 0", r"\b%s\[ic\.(zero%s)\[i\]\] = 0;" % (x, X), r"*vec_upd(%s, idx_at(&ic->\1, i)) = 0;" % x, 1)
+        r.sub("container->contracted-stub: v[ic.list[i]] = 0", r"\b%s\[ic\.(zero%s)\[i\]\] = ([^;]*);" % (x, X), r"*vec_upd(%s, idx_at(&ic->\1, i)) = \2;" % x, 1)
         np_, nz_ = "np" + x, "nz" + x
         r.splice_loop("loop-contract:prescribe%s#loop1" % X, r"\bfor\s*\(",
-                      loop_contract(x, "K_PRES", "BITS(%s->%s.data[gk_pos])" % (cachevar, pool), np_), 1)
-        r.splice_loop("loop-contract:prescribe%s#loop2" % X, r"\bfor\s*\(", loop_contract(x, "K_ZERO", "0", nz_), 2)
+                      loop_contract(x, "K_PRES", "SAME(%s->data[gk], %s->%s.data[gk_pos])" % (x, cachevar, pool), np_), 1)
+        r.splice_loop("loop-contract:prescribe%s#loop2" % X, r"\bfor\s*\(", loop_contract(x, "K_ZERO", "PZERO(%s->data[gk])" % x, nz_), 2)
         ctx.add_function(REP_CPP, nm, c.start, c.end, c.text, "M2", r.dropped, r.log)
         parts.append("bool Rep_prescribe%s(const struct Rep* self, struct State* s)\n%s\n" % (X, r.text))
     parts.append('#include "%s/prescribe_harness.h"\n' % SPEC)
@@ -80,7 +80,7 @@ def main(ctx):
     jobs = []
     for X in ("Q", "U"):
         jobs.append(lambda X=X: cbmc_unit(ctx, "matter.prescribe" + X, [unit_c], "h_prescribe" + X, enforce="Rep_prescribe" + X, replace=["idx_at"],
-                                          loop_contracts=True, cbmc_args=CHK, timeout=300, function="SimbodyMatterSubsystemRep::prescribe" + X,
+                                          loop_contracts=True, cbmc_args=CHK, timeout=120, function="SimbodyMatterSubsystemRep::prescribe" + X,
                                           require_props=[r"postcondition\.1$", r"postcondition\.3$", r"postcondition\.5$", r"loop_invariant_base", r"loop_invariant_step"]))
     jobs.append(lambda: cbmc_unit(ctx, "matter.getTotalNum", [unit_c], "h_counts", no_dfcc=True, cbmc_args=["--bounds-check", "--pointer-check"],
                                   min_obligations=2, function="SBInstanceCache::getTotalNumPresQ/ZeroQ/PresU/ZeroU", timeout=120))
@@ -100,4 +100,17 @@ def main(ctx):
                         "known-zero q of quaternion mobilizers should be the reference configuration, not 0 (TODO in the source)"]
     ctx.explanation = ("prescribeQ/prescribeU: exact (bit-pattern) copy of prescribed values, +0.0 for known-zero entries, frame for all other coordinates, "
                        "false/no invalidation iff nothing to do - proved for any sizes via loop contracts and a ghost coordinate. Index-list well-formedness assumed.")
-    return ctx.finish(replayer=None)
+    return ctx.finish(replayer=lambda ob: replay(ctx, ob))
+
+
+_exe = {}
+
+
+def replay(ctx, ob):
+    """API-level replay: System::prescribeQ/prescribeU on a small chain with Motion::Sinusoid, Motion::Steady and a velocity lock."""
+    if not ob.unit.startswith("matter.prescribe"):
+        return {}, None
+    if "exe" not in _exe:
+        _exe["exe"] = native_build(ctx, "c10_replay", os.path.join(VERIF, "replay/c10_replay.cpp"), libs=True)
+    rc, o, e, t = run([_exe["exe"]], 120)
+    return dict(cmd="c10_replay", output=o[-2500:], counterexample_note="abstract counterexample: ghost coordinate gk/gk_kind/gk_pos in the obligation's trace"), "REPRODUCED:" in o
